@@ -65,7 +65,7 @@ type bindRec struct {
 // NewSched creates a scheduler (off until Enable).
 func NewSched() *Sched {
 	s := &Sched{parked: map[int64]*parked{}, reqOf: map[int64]string{}, gidOf: map[string]int64{},
-		free: map[int64]bool{}, done: map[string]bool{}, result: map[string]error{}, Timeout: 3 * gotime.Second}
+		free: map[int64]bool{}, done: map[string]bool{}, result: map[string]error{}, Timeout: 8 * gotime.Second}
 	s.cond = sync.NewCond(&s.mu)
 	return s
 }
